@@ -436,6 +436,63 @@ class _Checked(Problem):
         return state
 
 
+class _EndState(Problem):
+    """Must-analysis for scans that step over blank lines on purpose (indented code): facts 'chk:c' (isEmpty(c) failed since c was
+    written), 'prev:c' (c was stepped by one from a checked position: line c - 1 is non-blank), 'end:v' (v holds a line number
+    whose predecessor is non-blank: the start line + 1, or a copy of a cursor in state 'prev')."""
+
+    def __init__(self, start: str) -> None:
+        self.start = start
+
+    def entry_state(self):
+        return frozenset()
+
+    def join(self, a, b, at):
+        return a & b
+
+    def edge(self, n: Node, state, label: str, succ: Node):
+        from ..syn import incr_of, const_int
+        a = n.ast
+        if a is None:
+            return state
+        if n.kind == "test" and label in ("T", "F"):
+            e, pos = a, label == "T"
+            while isinstance(e, ast.UnaryOp) and isinstance(e.op, ast.Not):
+                e, pos = e.operand, not pos
+            nm = _Checked._is_empty_call(e)
+            if nm is not None and not pos:
+                return state | {"chk:" + nm}
+            return state
+        if n.kind == "stmt" and label != "exc" and isinstance(a, (ast.Assign, ast.AugAssign, ast.AnnAssign)):
+            st = set(state)
+            io = incr_of(a) if isinstance(a, (ast.Assign, ast.AugAssign)) else None
+            if io is not None and io[2] and const_int(io[1]) == 1:
+                v = io[0]
+                was = "chk:" + v in st
+                st = {x for x in st if x.split(":", 1)[1] != v}
+                if was:
+                    st |= {"prev:" + v, "end:" + v}
+                return frozenset(st)
+            tg = a.targets if isinstance(a, ast.Assign) else [a.target]
+            names = [t.id for t in tg if isinstance(t, ast.Name)]
+            val = getattr(a, "value", None)
+            good = False
+            if isinstance(val, ast.Name) and ("end:" + val.id in st):
+                good = True
+            if isinstance(val, ast.BinOp) and isinstance(val.op, ast.Add) and isinstance(val.left, ast.Name) and val.left.id == self.start \
+                    and isinstance(val.right, ast.Constant) and val.right.value == 1:
+                good = True          # the line after the start line, which is non-blank by the dispatcher's contract
+            killed = {x.id for t in tg for x in ast.walk(t) if isinstance(x, ast.Name) and isinstance(x.ctx, ast.Store)}
+            st = {x for x in st if x.split(":", 1)[1] not in killed}
+            if good:
+                st |= {"end:" + nm for nm in names}
+            return frozenset(st)
+        if n.kind == "for" and label == "iter":
+            killed = {x.id for x in ast.walk(a.target) if isinstance(x, ast.Name)}
+            return frozenset(x for x in state if x.split(":", 1)[1] not in killed)
+        return state
+
+
 def rule_nonblank(c: Ctx) -> RuleResult:
     r = RuleResult("NONBLANK", "a block rule that cuts the text of an inline container (or of a reference definition) out of a run of lines "
                                "steps over a line only after `isEmpty` of that very line has failed: the run - hence the token's map and "
@@ -513,6 +570,39 @@ def rule_nonblank(c: Ctx) -> RuleResult:
                       f"block (the token's map ends on - or spans - a blank line and no longer matches its stripped content)")
     if nloops < 1:
         raise AnchorError("no scan loop found behind the stripped getLines cuts of the block rules")
+    # ---- a scan that steps over blank lines on purpose (indented code keeps interior blank lines) must return with a cursor whose
+    # predecessor line is non-blank: the value stored to state.line is the start line + 1 or a copy of the scan cursor taken
+    # right after it stepped over a line for which isEmpty had failed
+    nskip = 0
+    for reg in c.reg.rules["block"]:
+        f = reg.func
+        params = [a.arg for a in f.node.args.args]
+        if len(params) < 2:
+            continue
+        st, start = params[0], params[1]
+        skipping = False
+        for w in [w for w in own_nodes(f.node) if isinstance(w, ast.While)]:
+            for i_ in [x for x in ast.walk(w) if isinstance(x, ast.If)]:
+                nm = _Checked._is_empty_call(i_.test)
+                if nm is not None and any((io := incr_of(s_)) is not None and io[0] == nm and io[2] for b_ in i_.body for s_ in ast.walk(b_)
+                                          if isinstance(s_, (ast.Assign, ast.AugAssign))):
+                    skipping = True
+        if not skipping:
+            continue
+        nskip += 1
+        cfg = c.cfg(f)
+        res = solve(cfg, _EndState(start), widen_after=10**9)
+        for n in cfg.nodes:
+            a = n.ast
+            if n.kind == "stmt" and isinstance(a, ast.Assign) and any(U(t) == f"{st}.line" for t in a.targets) and res.get(n.id) is not None:
+                v = a.value
+                ok = (isinstance(v, ast.Name) and "end:" + v.id in res[n.id]) or (
+                    isinstance(v, ast.BinOp) and isinstance(v.op, ast.Add) and isinstance(v.left, ast.Name) and v.left.id == start
+                    and isinstance(v.right, ast.Constant) and v.right.value == 1)
+                r.add(f"{f.short}|end|{alpha(f, a)}", c.where(f, a), f.short, U(a), "discharged" if ok else "violation",
+                      "the cursor returned lies right after a line for which isEmpty failed (or after the start line)" if ok else
+                      f"the scan steps over blank lines, and the cursor it returns with (`{U(v)}`) is not known to lie right after a non-blank "
+                      f"line on every path: the block - and its map - would end on blank lines")
     if nfun < 2:
         raise AnchorError(f"only {nfun} block rules cut stripped text out of a scanned run of lines (paragraph, lheading, reference were confirmed by reading)")
     r.floor = 3
